@@ -105,7 +105,7 @@ GBegin == \E c \in WriteCfgs : ABegin(1, c) /\ Ev([op |-> "begin", p |-> 1, cfg 
 GOpen  == \E p \in Procs : AOpen(p) /\ Ev([op |-> "open", p |-> p, path |-> proc[p].path]) /\ Same
 GFlush == \E p \in Procs, k \in GenFlush : proc[p].flushed = 0 /\ AFlush(p, k) /\ Ev([op |-> "flush", p |-> p, k |-> k]) /\ Same
 GClose == \E p \in Procs : AClose(p) /\ Ev([op |-> "close", p |-> p]) /\ taint' = "none"
-GFail  == \E p \in Procs : AFail(p) /\ Ev([op |-> "fail", p |-> p]) /\ taint' = "bad_value"
+GFail  == \E p \in Procs : AFail(p) /\ Ev([op |-> "fail", p |-> p, more |-> IF TargetAfter(proc[p].path) = 0 THEN 0 ELSE 1]) /\ taint' = "bad_value"
 \* the print comes first: once per expanded state
 NextGen == /\ PrintT(ToJson([init |-> d0, hist |-> hist, disk |-> disk]))
            /\ (GSpawn \/ GCrash \/ GRead \/ GBegin \/ GOpen \/ GFlush \/ GClose \/ GFail)
